@@ -313,7 +313,14 @@ impl Node {
                 // currently we only support comments
                 // report a warning on other cases
                 if ps.consume_str("--").is_some() {
-                    let s = ps.skip_until_after("-->").unwrap_or("");
+                    let s = match ps.skip_until_after("-->") {
+                        Some(s) => s,
+                        None => {
+                            // the input ends inside the comment
+                            ps.add_warning(ParseErrorKind::IncompleteTag, range.clone());
+                            ""
+                        }
+                    };
                     let location = range.start..ps.position();
                     ret.push(Node::Comment(Comment {
                         content: s.to_string(),
